@@ -24,6 +24,31 @@ PROPS = {
             {"run": "TestC05S", "quick": 240, "thorough": 12000, "shards_quick": 4, "shards_thorough": 8},
         ],
     },
+    "C11": {
+        "pkg": "c11", "needs_gw": True, "level": "fault_enumeration",
+        "technique": "fault injection over generated scenarios: a real gateway process (built with the verif tag) kills itself with SIGKILL at the i-th filesystem-step hook of the operation under test, for every i (thorough) or a generated subset (quick); oracle = after restart the key is entirely in its previous or entirely in its new state through every API view, and stays usable",
+        "level_text": ("Scenario = operation (PutObject, CopyObject, CompleteMultipartUpload, UploadPart, DeleteObject) x prior state of the key (absent / "
+                       "present with data, metadata, tags) x temp-file strategy (O_TMPFILE / named) x metadata store (xattr / sidecar) x bucket versioning "
+                       "(off / enabled). A probe run with logging hooks records the ordered list of hook points the operation passes (12-55: every "
+                       "attribute read / write by path, remove, linkat, rename, version archive, part cleanup ...). For each chosen index i the key is "
+                       "set up afresh, the gateway is armed through VERIF_HOOK_DIR and SIGKILLs itself when it reaches the i-th point; a new gateway "
+                       "takes over the storage. Then GET, HEAD, GetObjectTagging, ListObjectsV2 and (versioned) ListObjectVersions must all show "
+                       "exactly the previous state or exactly the new state (body, length, ETag, user metadata, content type, tags, version list "
+                       "without duplicate ids); an acknowledged request must be in effect; an object acknowledged earlier is intact; no temporary name "
+                       "is listed; an upload in progress is still listed with correct parts and can be completed, an uncompleted one aborted; a fresh "
+                       "PUT / GET / DELETE of the key succeed; at the end the emptied bucket can be deleted. The thorough tier enumerates every point of "
+                       "every scenario (fault enumeration at hook granularity)."),
+        "level_note": ("SIGKILL of a process loses no page cache: this is process-crash consistency, as the property states, not power loss. Crash points are "
+                       "the hook points. Two open findings: the version id listed twice when a versioned overwrite / delete is killed between the archive "
+                       "copy and the publication, and the sidecar store's metadata rewritten by path before publication; both are recognised by their "
+                       "exact shape (window / previous data with foreign metadata) and the remaining points of the scenario are still explored."),
+        "rule": ("evaluation = one crash run (scenario, point). Non-trivial: the kill happened after the first and before the last hook point of the "
+                 "operation; distinct by (operation, prior state, configuration, point name)."),
+        "assumptions": ["hook points cover the filesystem steps of the operations (hook commits in MANIFEST.hooks)"],
+        "jobs": [
+            {"run": "TestC11A", "quick": 96, "thorough": 1600, "shards_quick": 8, "shards_thorough": 16},
+        ],
+    },
     "C18": {
         "pkg": "c18", "needs_gw": True, "level": "exploration",
         "technique": "property-based differential testing (rapid): generated S3 programs issued to an endpoint directly and to a versitygw s3-proxy in front of an identical endpoint (real processes, http / https, with and without --disable-checksum); oracle = equality of the normalised responses step by step",
